@@ -357,6 +357,48 @@ def multiset_cases():
                             yield case
 
 
+def unpaired_tangent_cases():
+    """deterministic: tangent-space inputs that do not come in pairs - (tangents, binormals) = (1,0), (0,1),
+    (2,1), (1,2), (2,0), (0,2), (1,1) - on triangles, polylists and polygons, with the fault placed in EACH
+    tangent / binormal input in turn (so also in the ones without a partner of the other semantic): index out
+    of range by one or by a lot at the first or the last corner, or a 2-component source; plus the fault-free
+    layout; through construction and through loading.  (Lines: correspondence only, no demand.)"""
+    for kind in KINDS:
+        ncorn = {'tri': 6, 'line': 4, 'polylist': 5, 'polygons': 5}[kind]
+        for nt, nb in ((1, 0), (0, 1), (2, 1), (1, 2), (2, 0), (0, 2), (1, 1)):
+            sems = ['TEXTANGENT'] * nt + ['TEXBINORMAL'] * nb
+            for victim in [None] + list(range(len(sems))):
+                faults = [None] if victim is None else ['oor1-first', 'oor1-last', 'far-first', 'far-last', 'comps']
+                for fi, fault in enumerate(faults):
+                    for via in (('create', 'xml') if fault in (None, 'oor1-last', 'comps') else
+                                (('create',) if fi % 2 else ('xml',))):
+                        # source 0: positions (4 rows); source 1+j: the j-th tangent-space input (3 rows)
+                        srcs = [[4, 3]] + [[3, 3] for _ in sems]
+                        inputs = [[0, 'VERTEX', ['src', 0]]] + [[1 + j, sm, ['src', 1 + j]] for j, sm in enumerate(sems)]
+                        if via == 'create':
+                            inputs.sort(key=lambda i: SEMS.index(i[1]))
+                        nind = 1 + len(sems)
+                        flat = []
+                        for c in range(ncorn):
+                            flat += [c % 4] + [(c + j) % 3 for j in range(len(sems))]
+                        if victim is not None:
+                            off = 1 + victim
+                            if fault == 'comps':
+                                srcs[1 + victim][1] = 2
+                            else:
+                                c = 0 if fault.endswith('first') else ncorn - 1
+                                flat[c * nind + off] = 3 if fault.startswith('oor1') else 3 + 1000 * (1 + victim)
+                        case = {'kind': kind, 'via': via, 'srcs': srcs, 'inputs': inputs, 'material': None,
+                                'mode': 'unpaired-tangents', 'dtype': 'int32', 'vcform': 'array'}
+                        if kind == 'polygons':
+                            case['polys'] = [flat[:2 * nind], flat[2 * nind:]]
+                        else:
+                            case['flat'] = flat
+                            if kind == 'polylist':
+                                case['vcounts'] = [2, 3]
+                        yield case
+
+
 def polygon_remainder_cases(rng):
     """<polygons> with two or three <p> whose lengths are q*nind + r for EVERY combination of
     remainders r (not all zero), nind = 1..4; the totals divide evenly for the combinations whose
@@ -531,7 +573,8 @@ def run(ctx):
         cases.append(gen_case(ctx.rng))
     for _ in range(60 if quick else 600):
         cases.append(gen_source_case(ctx.rng))
-    systematic = list(systematic_source_cases()) + list(polygon_remainder_cases(ctx.rng)) + list(multiset_cases())
+    systematic = list(systematic_source_cases()) + list(polygon_remainder_cases(ctx.rng)) + list(multiset_cases()) + \
+        list(unpaired_tangent_cases())
     cases.extend(systematic)
     nexh = 0
     if not quick:
@@ -603,7 +646,7 @@ def run(ctx):
         extra = [m['input'] for m in mm if m.get('input')]
         extra += [gen_case(ctx.rng, max_rows=6) for _ in range(6000)]
         extra += [gen_source_case(ctx.rng) for _ in range(200)]
-        extra += list(polygon_remainder_cases(ctx.rng)) + list(multiset_cases())
+        extra += list(polygon_remainder_cases(ctx.rng)) + list(multiset_cases()) + list(unpaired_tangent_cases())
         res = run_impl_cases(extra)
         return first_failures(extra, res)
 
